@@ -172,3 +172,22 @@ PROPS["C20"] = {
         Leg("types", "c20", "^TestTypes$", engine="enumerate", rapid=False, shards=(1, 1), tests=["types"]),
     ],
 }
+
+PROPS["C05"] = {
+    "title": "Base-position messages 1005/1006 decode exactly and display to 0.1 mm",
+    "level": "exploration",
+    "technique": "property-based testing (rapid) encoder->decoder round trip + exact-decimal display oracle + native fuzzing",
+    "level_text": ("Generated-input exploration by round trip: field values (full ranges, every boundary of the signed 38-bit coordinates, display rounding traps) "
+                   "are encoded by the harness's own bit writer and must come back exactly from the typed decoders and from handler.GetMessage+Analyse; the "
+                   "displayed coordinates must equal the exact decimal of value x 0.0001 computed in integers. Every truncation length and wrong types must be "
+                   "rejected. 2^38 values per coordinate cannot be enumerated, boundaries are aimed at explicitly."),
+    "rule": ("Cases: (type 1005/1006, station, ITRF year, 3 reserved groups, x/y/z from {-2^37, -2^37+1, -1, 0, 1, 2^37-1, rounding traps, uniform}, height, log level, "
+             "variant: plain / 1..40 trailing bytes / payload cut to any shorter length / wrong type). Non-trivial = a coordinate is negative or a boundary value, or the "
+             "case is a rejection case; distinct = distinct frame bytes + log level."),
+    "assumptions": ["harness bit writer/encoder (exercised against the reference bit reader in C14)", "the display oracle looks for the exact decimals among the numbers shown, in order, so wording changes are not alarms", "Go toolchain, rapid v1.3.0"],
+    "min_evals": {"quick": 20000, "thorough": 1000000},
+    "legs": [
+        Leg("message", "c05", "^TestMessage$", checks=(60000, 400000), shards=(2, 16), tests=["message"]),
+        Leg("fuzz-message", "c05", "", engine="native-fuzz", fuzz="FuzzMessage", fuzztime=60, tiers=("thorough",)),
+    ],
+}
